@@ -133,10 +133,16 @@ impl PacketHeader {
         }
     }
 
-    /// Returns the packet length as &mut.
-    pub(crate) fn packet_length_mut(&mut self) -> &mut PacketLength {
+    /// Sets a new fixed packet length.
+    ///
+    /// For legacy format headers the length-type bits are kept in step with the length.
+    pub(crate) fn set_fixed_length(&mut self, len: u32) {
         match self {
-            Self::Old { ref mut length, .. } | Self::New { ref mut length, .. } => length,
+            Self::Old { header, length } => {
+                header.set_length_type(old_fixed_type(len));
+                *length = PacketLength::Fixed(len);
+            }
+            Self::New { length, .. } => *length = PacketLength::Fixed(len),
         }
     }
 
